@@ -7,6 +7,8 @@ from typing import Annotated, Any, Literal, Optional, Union
 
 from . import core, gen
 
+import ovld.dependent as ovld_dep  # noqa: E402
+
 PROP = "C15"
 
 
@@ -29,6 +31,8 @@ class K3(K0):
 NoneT = type(None)
 
 # label -> annotation object (None = no annotation at all)
+SW = ovld_dep.StartsWith["a"]
+
 ANN = {
     "Union[A,B]": Union[K0, K1], "A|B": K0 | K1, "(A,B)": (K0, K1), "Union[B,A]": Union[K1, K0], "B|A": K1 | K0, "(B,A)": (K1, K0),
     "Optional[A]": Optional[K0], "A|None": K0 | None, "Union[A,None]": Union[K0, None], "None|A": None | K0,
@@ -47,6 +51,9 @@ ANN = {
     "Union[A,int]": Union[K0, int], "A|int": K0 | int, "(int,A)": (int, K0),
     "type[A]": type[K0], "'type[A]'": "type[C15_K0]", "Annotated[type[A],'x']": Annotated[type[K0], "x"], "Type[A]": typing.Type[K0],
     "type": type, "'type'": "type", "type[object]": type[object], "type[Any]": type[Any],
+    # unions with a value-dependent member whose check would raise outside its bound, in both member orders
+    "Union[SW,int]": Union[SW, int], "Union[int,SW]": Union[int, SW], "(SW,int)": (SW, int), "(int,SW)": (int, SW),
+    "Optional[SW]": Optional[SW], "Union[None,SW]": Union[None, SW], "Union[SW,None]": Union[SW, None],
     # surroundings only
     "B": K1, "K2": K2, "K3": K3, "int": int, "str": str, "Literal[1]": Literal[1], "Literal[2,3]": Literal[2, 3], "Union[B,int]": Union[K1, int],
     "list": list, "list[int]": list[int], "NoneType": NoneT,
@@ -63,12 +70,14 @@ CLASSES_EQ = [
     ["Literal[0,False]", "Literal[False,0]"],
     ["Literal[True,1]", "Literal[1,True]"],
     ["Union[A,int]", "A|int", "(int,A)", "'Union[int,A]'"],
+    ["Union[SW,int]", "Union[int,SW]", "(SW,int)", "(int,SW)"],
+    ["Optional[SW]", "Union[None,SW]", "Union[SW,None]"],
     ["type[A]", "'type[A]'", "Annotated[type[A],'x']"],
     ["type", "'type'", "type[object]"],
 ]
 SURROUND_POOL = ["A", "B", "K2", "K3", "object", "int", "str", "Literal[1]", "Literal[2,3]", "Union[B,int]", "list", "list[int]", "NoneType", "Union[A,B]"]
 
-VALUES = [("0", 0), ("False", False), ("True", True), ("K0()", K0()), ("K1()", K1()), ("K2()", K2()), ("K3()", K3()), ("None", None), ("1", 1), ("2", 2), ("3", 3), ("'a'", "a"), ("'b'", "b"),
+VALUES = [("'abc'", "abc"), ("'xyz'", "xyz"), ("0", 0), ("False", False), ("True", True), ("K0()", K0()), ("K1()", K1()), ("K2()", K2()), ("K3()", K3()), ("None", None), ("1", 1), ("2", 2), ("3", 3), ("'a'", "a"), ("'b'", "b"),
           ("[]", []), ("[K0()]", [K0()]), ("[1]", [1]), ("1.5", 1.5), ("K0", K0), ("K3", K3), ("K1", K1), ("int", int), ("list[K0]", list[K0])]
 
 
